@@ -961,17 +961,22 @@ class VarsManager(object):
 
     @contextlib.contextmanager
     def temp_params(self, params):
-        old_params = {i: self.get(i) for i in params.keys()}
-        self.set_all(params)
-        yield
-        self.set_all(old_params)
+        # values are set (and restored) without the boundary transformation
+        old_params = {i: self.get(i, val_in_fit=False) for i in params.keys()}
+        try:
+            self.set_all(params)
+            yield
+        finally:
+            self.set_all(old_params)
 
     @contextlib.contextmanager
     def mask_params(self, params):
         old_mask = self.mask_vars
         self.mask_vars = params
-        yield
-        self.mask_vars = old_mask
+        try:
+            yield
+        finally:
+            self.mask_vars = old_mask
 
     def minimize(self, fcn, jac=True, method="BFGS", mini_kwargs={}):
         """
